@@ -960,6 +960,19 @@ func cmdTrace(prop, opsPath, outPath string, pairsPerType int) {
 				}
 			}
 		}
+		// drop repeated cases (the pair sources overlap)
+		{
+			seen := map[string]bool{}
+			uniq := cases[:0]
+			for _, c := range cases {
+				k := c.op + "|" + c.a.String() + "|" + c.b.String()
+				if !seen[k] {
+					seen[k] = true
+					uniq = append(uniq, c)
+				}
+			}
+			cases = uniq
+		}
 		// split into units of ~2000 cases for parallelism
 		for s := 0; s < len(cases); s += 2000 {
 			e := s + 2000
